@@ -170,6 +170,17 @@ def check_linear(ctx, case):
     lhs = cm(B1, a*s + b*s2)
     rhs = a*cm(B1, s) + b*cm(B1, s2)
     cmp(ctx, 'linearity', case, 'in the sensitivities', lhs, rhs, 1e-9)
+    # two noise operators at once, with sensitivities that cancel exactly on every segment
+    # (differential noise) and with arbitrary signs: row a is the control matrix of operator a alone
+    def cm2(s1, s2):
+        dd = dict(desc)
+        dd['n_opers'] = np.array([B1, B2])
+        dd['n_coeffs'] = np.array([s1, s2])
+        dd['n_ids'] = ['N0', 'N1']
+        return gens.build(dd).get_control_matrix(omega)
+    both = cm2(s, -s)
+    cmp(ctx, 'linearity', case, 'two operators with cancelling sensitivities: row 0', both[0], cm(B1, s)[0], 1e-9)
+    cmp(ctx, 'linearity', case, 'two operators with cancelling sensitivities: row 1', both[1], -cm(B2, s)[0], 1e-9)
     ctx.count(('lin', case['seed']))
 
 
